@@ -3,7 +3,7 @@ import os
 
 import numpy as np
 
-from vlib import probe
+from vlib import gen, probe
 from vlib.probe import COL
 from vlib.props import recshared as rs
 
@@ -164,6 +164,15 @@ def run_case(case):
     if fam == "rows":
         nrows = int(rng.choice([1, 2, 3, 50, 300, 5000], p=[.2, .15, .15, .2, .2, .1]))
     table = rs.bin_table(rng, nrows=nrows)
+    if fam == "rows" and rng.random() < .12:
+        # more than a megabyte of rows (1.1 - 3 MiB; the row size is whatever the random dtype gives, rarely a power of
+        # two), or three rows of more than a megabyte each: whatever block size a writer or reader works in is crossed
+        if rng.random() < .8:
+            big = np.zeros(int(np.ceil(rng.uniform(1.1, 3.0) * 2 ** 20 / table.dtype.itemsize)), dtype=table.dtype)
+        else:
+            big = np.zeros(3, dtype=[("id", "<i4"), ("img", str(rng.choice(["<f4", ">f4"])), (int(rng.integers(500, 700)), int(rng.integers(450, 600))))])
+        gen.fill(rng, big, raw=True)
+        table = big
     header = rs.rand_header(rng) if fam != "dtype-zoo" or rng.random() < .5 else None
     if fam == "headers" and header is None:
         header = {"note": rs.HDR_STRINGS[int(rng.integers(0, len(rs.HDR_STRINGS)))], "END": "END", "k": [1, "END", {"SIZE": 3}]}
